@@ -216,7 +216,7 @@ def replay(path):
         print('replay file records a broken proof obligation, not an input: %s' % obj.get('kind'))
         print(json.dumps(obj, indent=1)[:3000])
         sys.exit(1)
-    build_driver()
+    build_driver(['c20'])
     build_harness(['owrun'])
     li = run_impl([line])[0]
     lm = run_model([line])[0]
@@ -253,7 +253,7 @@ def main():
             replay(sys.argv[i + 1])
     c = Check('C20')
     quick = c.tier == 'quick'
-    build_driver()
+    build_driver(['c20'])
     build_harness(['owrun'])
     prove(c)
     rng = c.rng
